@@ -2986,4 +2986,145 @@ theorem accepts_iff_53B (s : Text) : (F53B.parse s).isOk = true ↔ Doc.F53B s :
 
 example : Doc.F53B "/C/12345\nLONDON".toList :=
   Or.inr (Or.inr ⟨"/C/12345".toList, "LONDON".toList, by decide, ⟨by decide, by decide, by decide⟩, ⟨by decide, by decide, by decide⟩⟩)
+
+/-- what makes the library read the first line of 53D as a party identifier when more lines follow -/
+def looks53D (first : Text) : Bool :=
+  first.head? == some '/' || (decide (blen first ≤ 34) && !first.contains ' ' && first.any Char.isDigit)
+
+/-- 53D `[/1!a][/34x]` + `4*35x`: 1 to 5 lines, each of 1 to 35 x-characters; a fifth line is allowed only when the
+first is a party identifier (starts with a slash, or has no blank, a digit and at most 34 characters) -/
+def Doc.F53D (s : Text) : Prop :=
+  (∀ l ∈ splitNl s, Doc.XText 35 l) ∧ (splitNl s).length ≤ 5 ∧
+  ((splitNl s).length = 5 → ∀ f ∈ (splitNl s).head?, looks53D f = true)
+
+theorem accepts_iff_53D (s : Text) : (F53D.parse s).isOk = true ↔ Doc.F53D s := by
+  unfold F53D.parse Doc.F53D
+  have hnn := splitNl_ne_nil s
+  cases hsp : splitNl s with
+  | nil => exact absurd hsp hnn
+  | cons first rest =>
+    simp only [List.mem_cons, forall_eq_or_imp, List.length_cons, List.head?_cons, Option.mem_def, Option.some.injEq, forall_eq']
+    have hlk_def : (first.head? == some '/' || (decide (blen first ≤ 34) && !first.contains ' ' && first.any Char.isDigit)) = looks53D first := rfl
+    simp only [hlk_def]
+    by_cases hc : (looks53D first && !first.isEmpty && !rest.isEmpty) = true
+    · simp only [hc, if_true]
+      simp only [Bool.and_eq_true, Bool.not_eq_true', List.isEmpty_eq_false_iff] at hc
+      obtain ⟨⟨hlk, hfe⟩, hre⟩ := hc
+      constructor
+      · intro h
+        split at h; · cases h
+        rename_i hl
+        split at h; · cases h
+        rename_i hx
+        simp only [Bool.not_eq_true', Bool.not_eq_false] at hx
+        have hna : (parseNameAndAddress rest 0).isOk = true := by
+          cases hp : parseNameAndAddress rest 0 with
+          | ok ls => rfl
+          | err => simp [hp] at h; cases h
+          | panic => simp [hp] at h; cases h
+        obtain ⟨n1, n2, n3⟩ := (nameAddr_accepts_iff rest).mp hna
+        exact ⟨⟨xtext_of_checks 35 first (by omega) hfe hx, n3⟩, by omega, fun _ => hlk⟩
+      · rintro ⟨⟨hf, hr⟩, hlen, _⟩
+        obtain ⟨f1, f2, f3⟩ := checks_of_xtext 35 first hf
+        have hl : ¬ blen first > 35 := by omega
+        have hna : (parseNameAndAddress rest 0).isOk = true :=
+          (nameAddr_accepts_iff rest).mpr ⟨by cases rest with | nil => exact absurd rfl hre | cons _ _ => simp, by omega, hr⟩
+        simp only [hl, if_false, f3, Bool.not_true, Bool.false_eq_true]
+        cases hp : parseNameAndAddress rest 0 with
+        | ok ls => rfl
+        | err => rw [hp] at hna; cases hna
+        | panic => rw [hp] at hna; cases hna
+    · simp only [hc, Bool.false_eq_true, if_false]
+      refine Iff.trans (b := Doc.NameLines (first :: rest)) ?_ ?_
+      · rw [← nameAddr_accepts_iff (first :: rest)]
+        cases parseNameAndAddress (first :: rest) 0 <;> simp [Res.isOk]
+      unfold Doc.NameLines
+      simp only [List.length_cons, List.mem_cons, forall_eq_or_imp]
+      constructor
+      · rintro ⟨_, h2, hf, hr⟩
+        exact ⟨⟨hf, hr⟩, by omega, fun h5 => by omega⟩
+      · rintro ⟨⟨hf, hr⟩, hlen, h5⟩
+        refine ⟨by omega, ?_, hf, hr⟩
+        by_cases h5' : rest.length + 1 = 5
+        · have hlk := h5 h5'
+          have hfe : first.isEmpty = false := by
+            obtain ⟨f1, f2, f3⟩ := checks_of_xtext 35 first hf
+            cases first <;> simp_all
+          have hre : rest.isEmpty = false := by cases rest with | nil => simp at h5' | cons _ _ => rfl
+          simp [hlk, hfe, hre] at hc
+        · omega
+example : Doc.F53D "/1234\nBANK".toList := by
+  refine ⟨?_, by decide, by decide⟩
+  have e : splitNl "/1234\nBANK".toList = ["/1234".toList, "BANK".toList] := by decide
+  rw [e]
+  intro l hl
+  simp only [List.mem_cons, List.mem_nil_iff, or_false] at hl
+  rcases hl with rfl | rfl <;> exact ⟨by decide, by decide, by decide⟩
+
+
+/-- 51A `[/1!a][/34x]` + BIC: a BIC alone, or a party identifier line and a BIC -/
+def Doc.F51A (s : Text) : Prop :=
+  Doc.Bic s ∨ ∃ l b, s = l ++ '\n' :: b ∧ Doc.PartyId l ∧ Doc.Bic b
+
+theorem bic_isOk_of_ok {s b : Text} (h : parseBic s = .ok b) : (parseBic s).isOk = true := by rw [h]; rfl
+
+theorem accepts_iff_51A (s : Text) : (F51A.parse s).isOk = true ↔ Doc.F51A s := by
+  constructor
+  · intro h
+    unfold F51A.parse at h
+    split at h
+    · cases h
+    · cases h
+    · rename_i pid rem hv
+      unfold F51A.viaNl at hv
+      split at hv
+      · rename_i p hp
+        obtain ⟨hs, _⟩ := findChar_split hp
+        split at hv
+        · rename_i id hid
+          cases hv
+          right
+          refine ⟨s.take p, s.drop (p + 1), hs, (pid_accepts_iff _).mp ⟨id, hid⟩, ?_⟩
+          split at h
+          · rename_i b hb; exact (accepts_iff_bic _).mp (bic_isOk_of_ok hb)
+          · cases h
+          · cases h
+        · cases hv
+        · cases hv
+        · cases hv
+      · cases hv
+    · split at h
+      · cases h
+      · split at h
+        · rename_i b hb; left; exact (accepts_iff_bic _).mp (bic_isOk_of_ok hb)
+        · cases h
+        · cases h
+  · intro h
+    rcases h with hb | ⟨l, b, rfl, hl, hb⟩
+    · have hnonl : ∀ c ∈ s, c ≠ '\n' := fun c hc => (upperOrDigit_not_nl_slash c (bic_chars s hb c hc)).1
+      have hok := (accepts_iff_bic s).mpr hb
+      have hhead : (s.head? == some '/') = false := by
+        have := bic_head_not_slash s hb
+        cases hh : s.head? with
+        | none => rfl
+        | some c => rw [hh] at this; simp only [ne_eq, Option.some.injEq] at this; simp [this]
+      unfold F51A.parse F51A.viaNl
+      simp only [findChar_none s hnonl, hhead, Bool.false_and, Bool.false_eq_true, if_false]
+      cases hp : parseBic s with
+      | ok bic => rfl
+      | err => rw [hp] at hok; cases hok
+      | panic => rw [hp] at hok; cases hok
+    · have hnl := partyId_no_nl l hl
+      obtain ⟨p, hp⟩ := (pid_accepts_iff l).mpr hl
+      have hok := (accepts_iff_bic b).mpr hb
+      unfold F51A.parse F51A.viaNl
+      have ht : (l ++ '\n' :: b).take l.length = l := List.take_left' rfl
+      have hd : (l ++ '\n' :: b).drop (l.length + 1) = b := by
+        rw [show l ++ '\n' :: b = (l ++ ['\n']) ++ b by simp]
+        exact List.drop_left' (by simp)
+      simp only [findChar_append l b hnl, ht, hd, hp]
+      cases hpb : parseBic b with
+      | ok bic => rfl
+      | err => rw [hpb] at hok; cases hok
+      | panic => rw [hpb] at hok; cases hok
 end SwiftMT.Props.C05
